@@ -303,7 +303,12 @@ func (c *Ctx) dedupMapPerFile(w *walkInfo, mu *ssa.MapUpdate) (bool, string) {
 	}
 	inspectFn := w.Call.Parent()
 	loop := loopOf(w.Call.Block())
+	nMade := 0
 	for _, r := range roots {
+		if cs, isC := r.(*ssa.Const); isC && cs.Value == nil {
+			continue // the field's zero value before its per-file assignment (NIL-MAP / PER-ITERATION judge that)
+		}
+		nMade++
 		mm, ok := r.(*ssa.MakeMap)
 		if !ok {
 			return false, "map updated during the walk does not originate from a make(): " + short(P.termDesc(r, false))
@@ -317,6 +322,9 @@ func (c *Ctx) dedupMapPerFile(w *walkInfo, mu *ssa.MapUpdate) (bool, string) {
 		if loop == nil && inspectFn.Synthetic != "range-over-func yield" {
 			return false, "walk is not inside a per-file loop body"
 		}
+	}
+	if nMade == 0 {
+		return false, "dedup map is never created"
 	}
 	return true, "map is created per file, next to the ast.Inspect call"
 }
